@@ -40,8 +40,55 @@ def path_expr_parts(e):
     return ["?" + show(e)]
 
 
+def cached_path_members(facts, cls):
+    """String members of the file writer that cache a composed path: {member: defining expression}.  A member qualifies when
+    every assignment to it in the class stores the same expression and happens while no output is open: in a constructor
+    before any open(), after a close() on this object, or inside open() before the stream is opened.  (A cache refreshed
+    while a file is open would make close() rename a different name than the one that was opened.)"""
+    sites = {}
+    for f in facts.functions.values():
+        if f.get("cls") != cls or f.get("body") is None:
+            continue
+        order = {id(x): i for i, x in enumerate(ir.walk(f["body"]))}
+        calls = [(order[id(c)], c) for c in ir.calls_in(f["body"])]
+        for lp, rhs, node in consumption_targets(f["body"]):
+            if not (lp and len(lp) == 2 and lp[0] == "this"):
+                continue
+            here = order[id(node)]
+            closed_before = any(i < here and callee_name(c) == "close" and c.get("k") == "MCall" and unwrap(c.get("recv") or {}).get("k") == "This"
+                                for i, c in calls)
+            opened_before = any(i < here and callee_name(c) == "open" and c.get("k") == "MCall" for i, c in calls)
+            in_open = f["qn"].endswith("::open") and not opened_before
+            safe = (f.get("ctor") and not opened_before) or closed_before and not any(
+                i < here and callee_name(c) == "open" and i > max(j for j, d in calls if callee_name(d) == "close" and j < here) for i, c in calls) or in_open
+            sites.setdefault(lp[1], []).append((safe, rhs))
+    out = {}
+    for m, lst in sites.items():
+        if all(sf for sf, _ in lst) and len(set(show(r) for _, r in lst)) == 1:
+            out[m] = lst[0][1]
+    return out
+
+
+def consumption_targets(body):
+    from .. import consumption
+    return consumption.assignment_targets(ir.stmts(body))
+
+
+def expand_cached(parts, cache, depth=0):
+    out = []
+    for p_ in parts:
+        if isinstance(p_, tuple) and len(p_) == 2 and p_[0] == "this" and p_[1] in cache and depth < 4:
+            out += expand_cached(path_expr_parts(cache[p_[1]]), cache, depth + 1)
+        else:
+            out.append(p_)
+    return out
+
+
 def check(run):
     facts = run.facts
+    cache = cached_path_members(facts, WSTR)
+    cache.pop("m_value", None)
+    cache.pop("m_extension", None)
     # ---------------- R15.1 who may open / rename, and what is opened
     opens, renames = [], []
     for f in facts.functions.values():
@@ -65,7 +112,7 @@ def check(run):
     open_parts = None
     if opens:
         f, c = opens[0]
-        open_parts = path_expr_parts(c["args"][0])
+        open_parts = expand_cached(path_expr_parts(c["args"][0]), cache)
         okp = open_parts[-1:] == [".part"] and ("this", "m_value") in open_parts
         run.ob("R15.1", "open-target-is-.part", okp, f, c.get("l", 0),
                "the stream is opened on <name><ext>.part" if okp else "the stream is opened on %s, not on the .part name" % open_parts)
@@ -98,8 +145,8 @@ def check(run):
            "pending data flushed, descriptor closed, then the file is renamed" if ok else
            "Writer<std::string>::close performs %s; the file must be given its final name only after flush and close" % core)
     if ren is not None and open_parts is not None:
-        src = path_expr_parts(ren[0]["args"][0])
-        dst = path_expr_parts(ren[0]["args"][1])
+        src = expand_cached(path_expr_parts(ren[0]["args"][0]), cache)
+        dst = expand_cached(path_expr_parts(ren[0]["args"][1]), cache)
         ok = src == open_parts and dst == open_parts[:-1]
         run.ob("R15.2", "close:rename(part,final)", ok, cf, ren[0].get("l", 0),
                "rename(<opened .part path>, <same path without .part>)" if ok else
